@@ -1591,6 +1591,65 @@ def run_sched_commit_case(tmp, ckind, seed, schedule=None):
     return bad, dict(sched_commit=dict(ckind=ckind, seed=seed, schedule=res['decisions']))
 
 
+def run_sched_alloc_case(tmp, variant, seed, schedule=None):
+    """two or three threads inside new_oid() of ONE demo storage (plain / file base / pushed) under
+    harness/sched.py with line-granular preemption inside new_oid: the ids are pairwise distinct and none
+    identifies an object of either layer"""
+    import sched
+    d = os.path.join(tmp, 'scheda')
+    shutil.rmtree(d, ignore_errors=True)
+    os.makedirs(d)
+
+    def local(frame, event, arg):
+        if event == 'line':
+            sc = sched._current
+            if sc is not None:
+                sc.yield_point('line', 'new_oid:%d' % frame.f_lineno)
+        return local
+
+    def tracer(frame, event, arg):
+        if event == 'call' and frame.f_code.co_name == 'new_oid' and '/ZODB/' in frame.f_code.co_filename:
+            return local
+        return None
+    results = {}
+    try:
+        with sched.installed():
+            base = MappingStorage('ab') if variant != 'filebase' else FileStorage(os.path.join(d, 'b.fs'), create=True)
+            commit(base, u64(real_tid(UNIT)), [(1, 0, 1), (2, 0, 2), (3, 0, 3)])
+            FAKE.queue = [1]
+            demo = DemoStorage(base=base, changes=MappingStorage('ac'))
+            commit(demo, u64(real_tid(2 * UNIT)), [(4, 0, 4)])
+            if variant == 'pushed':
+                FAKE.queue = [2]
+                demo = demo.push()
+            FAKE.fallback = 10 ** 6 * (1 + seed % 7)
+            sc = sched.Scheduler(seed=seed, schedule=schedule)
+
+            def alloc(name):
+                sys.settrace(tracer)
+                try:
+                    results[name] = [u64(demo.new_oid()) for _ in range(3)]
+                finally:
+                    sys.settrace(None)
+            for i in range(2 + seed % 2):
+                sc.spawn('a%d' % i, alloc, 'a%d' % i)
+            res = sc.run(timeout=60)
+            demo.close()
+    finally:
+        shutil.rmtree(d, ignore_errors=True)
+    if res['deadlock'] or res['errors']:
+        raise InfraError('scheduler run failed: deadlock=%s errors=%r' % (res['deadlock'], res['errors']))
+    ids = [o for v in results.values() for o in v]
+    bad = None
+    if len(set(ids)) != len(ids):
+        bad = '%s demo storage: concurrent new_oid callers received the same id(s) %s' % (
+            variant, sorted({o for o in ids if ids.count(o) > 1}))
+    elif set(ids) & {1, 2, 3, 4}:
+        bad = '%s demo storage: a concurrent new_oid caller received the id of an existing object: %s' % (
+            variant, sorted(set(ids) & {1, 2, 3, 4}))
+    return bad, dict(sched_alloc=dict(variant=variant, seed=seed, schedule=res['decisions']))
+
+
 # ---------------------------------------------------------------- conflicts resolved across the layers
 def run_resolve_case(rng, tmp):
     """A class with _p_resolveConflict (PCounter): a store with a stale serial -- from the base while the
@@ -2091,7 +2150,7 @@ def main(argv=None):
             probes = case['probe']
         elif case.get('blob_seed') is not None or case.get('overlap') or case.get('sched_commit') \
                 or case.get('close_seed') is not None or case.get('resolve_seed') is not None \
-                or case.get('shared_seed') is not None:
+                or case.get('shared_seed') is not None or case.get('sched_alloc'):
             ncases = 0
             probes = False
         else:
@@ -2177,6 +2236,18 @@ def main(argv=None):
         ck.case(['sched-commit', info], True, None)
         if bad:
             ck.violation('C16:commit-tid-order', bad, info)
+    scheda = []
+    if rcase.get('sched_alloc'):
+        scheda = [rcase['sched_alloc']]
+    elif not ck.replay_path:
+        scheda = [dict(variant=('plain', 'filebase', 'pushed')[i % 3], seed=ck.rng.randrange(10 ** 9), schedule=None)
+                  for i in range(30 if not ck.thorough else 900)]
+    for sa in scheda:
+        bad, info = run_sched_alloc_case(ck.tmp, sa['variant'], sa['seed'], sa.get('schedule'))
+        ck.count('sched-alloc:' + sa['variant'])
+        ck.case(['sched-alloc', info], True, None)
+        if bad:
+            ck.violation('C16:concurrent-new-oid', bad, info)
     # ---- conflicts resolved across the layers: merged state stored, tpc_vote reports the oids
     res_seeds = []
     if rcase.get('resolve_seed') is not None:
@@ -2293,7 +2364,14 @@ def main(argv=None):
             'probe pack-temp',
             'new_oid draw streams never propose an oid whose newest record is an un-creation (probe '
             'uncreated-reissue)',
-            'no resolvable classes (tryToResolveConflict always raises); pickles are MinPO without references',
+            'ORACLE-ONLY sections (real code vs a Python oracle, not in the Lean model): blob files through '
+            'blob-capable layers incl. BlobStorage proxies; overlapping commits (gate + scheduler); close() ownership; '
+            'resolved conflicts (PCounter) incl. two storages interleaved; two demo storages over one shared base; '
+            'concurrent new_oid callers (scheduler, line-granular); undoLog/undoInfo membership and len()/'
+            'tpc_transaction()/supportsUndo are compared with the model but have no oracle opinion beyond membership',
+            'storage kinds: MappingStorage, FileStorage (plain / blob_dir), HexStorage-wrapped, built from ZODB.config '
+            'sections (changes alone, or the whole <demostorage> over the closed and reopened base file)',
+            'main-stream conflict stores use an unresolvable class (MinPO); pickles are MinPO without references',
             'history compared on tids only; loadBefore None and POSKeyError are both "no revision visible" '
             'for the oracle (the model distinguishes them exactly)'])
 
